@@ -30,7 +30,7 @@ func init() { register(c18{}) }
 func (c18) ID() string { return "C18" }
 
 func (c18) Rule() string {
-	return "systematic (every shard enumerates, shared sharding): Complement and Transcribe on every byte value 0..255 alone and embedded, on the 256-byte sequence in ascending and two permuted orders; Match on all 32x32 single-letter cells (query letter x sequence letter, IUPAC alphabet acgturyswkmbdhvn in both cases) and every query letter against permutations of the whole alphabet; every ASCII byte outside the alphabet as a one-byte query (and in front of 'r') against sequences holding all 128 ASCII bytes; Match and Search on ALL sequences up to length Ls and ALL queries up to length Lq over the small-alphabet universes listed in c18Universes (plain bases, ambiguity codes, the k row, mixed case, a literal '-', and the regexp metacharacters . + * ? ( ) [ ] \\ | ^ $ { }); empty sequence/query combinations. seeded (per shard): random Complement/Transcribe inputs over all byte values with feature tables (BasicSequence and GenBank hosts), random Match/Search cases of length <= 120 (periodic, mixed-case, ambiguity-generalised queries cut from the sequence) and random cases over the combined 19-symbol alphabet. Oracle: IUPAC base-set table; Complement/Transcribe byte-by-byte from the complementary set, length, involution up to U, feature i keeps key/qualifiers and denotes the same parts on the other strand; Match judged against the statement directly (every reported segment has query length, lies inside, is not contradicted by any cell, list ascending and non-overlapping, every definitely matching window is reported or overlaps an earlier reported segment) and, when no don't-care cell (query n against a sequence byte outside the alphabet) is involved, equal to the leftmost non-overlapping scan; Search equal to the brute-force list of all case-folded occurrences, ascending. non-trivial: Complement/Transcribe input holds an IUPAC letter; a table cell always; other Match/Search cases when the oracle expects at least one segment; distinct: canonical case text. Sequences spelled with u are searched with the t spelling of their own stretches of 6..15 letters (and the reverse); gts search with a query file is re-run with the cache on after the same command line whose query file held the same letters cut into records differently. A sequence holding well-formed two- and three-byte UTF-8 runs (every byte is a residue); every other Match/Search call reuses the buffer of that length from an earlier call; gts search on spacer records spelled with n/s/w only. Search on a sequence of 2 MiB + 70 with the query planted at both ends, across the 2^20 mark, ending on and starting on the 2^21 mark: each occurrence once."
+	return "systematic (every shard enumerates, shared sharding): Complement and Transcribe on every byte value 0..255 alone and embedded, on the 256-byte sequence in ascending and two permuted orders; Match on all 32x32 single-letter cells (query letter x sequence letter, IUPAC alphabet acgturyswkmbdhvn in both cases) and every query letter against permutations of the whole alphabet; every ASCII byte outside the alphabet as a one-byte query (and in front of 'r') against sequences holding all 128 ASCII bytes; Match and Search on ALL sequences up to length Ls and ALL queries up to length Lq over the small-alphabet universes listed in c18Universes (plain bases, ambiguity codes, the k row, mixed case, a literal '-', and the regexp metacharacters . + * ? ( ) [ ] \\ | ^ $ { }); empty sequence/query combinations. seeded (per shard): random Complement/Transcribe inputs over all byte values with feature tables (BasicSequence and GenBank hosts), random Match/Search cases of length <= 120 (periodic, mixed-case, ambiguity-generalised queries cut from the sequence) and random cases over the combined 19-symbol alphabet. Oracle: IUPAC base-set table; Complement/Transcribe byte-by-byte from the complementary set, length, involution up to U, feature i keeps key/qualifiers and denotes the same parts on the other strand; Match judged against the statement directly (every reported segment has query length, lies inside, is not contradicted by any cell, list ascending and non-overlapping, every definitely matching window is reported or overlaps an earlier reported segment) and, when no don't-care cell (query n against a sequence byte outside the alphabet) is involved, equal to the leftmost non-overlapping scan; Search equal to the brute-force list of all case-folded occurrences, ascending. non-trivial: Complement/Transcribe input holds an IUPAC letter; a table cell always; other Match/Search cases when the oracle expects at least one segment; distinct: canonical case text. Sequences spelled with u are searched with the t spelling of their own stretches of 6..15 letters (and the reverse); gts search with a query file is re-run with the cache on after the same command line whose query file held the same letters cut into records differently. A sequence holding well-formed two- and three-byte UTF-8 runs (every byte is a residue); every other Match/Search call reuses the buffer of that length from an earlier call; gts search on spacer records spelled with n/s/w only. Search on a sequence of 2 MiB + 70 with the query planted at both ends, across the 2^20 mark, ending on and starting on the 2^21 mark: each occurrence once. gts search on records that equal their own reverse complement."
 }
 
 func (c18) RequiredBuckets(tier string) []string {
@@ -39,7 +39,7 @@ func (c18) RequiredBuckets(tier string) []string {
 		"match-table:cell", "match-table:row", "literal-bytes", "metachar-queries",
 		"match:multi", "match:overlap-suppressed", "match:ambiguity", "match:case-fold",
 		"search:overlapping", "search:case-fold", "search:hit", "search:no-hit", "empty-inputs", "multi:long-query-in-the-other-spelling-of-t/u", "search:sequence-of-several-MiB",
-	}, "cli:search", "cli:search -e", "cli:search --no-complement", "cli:search RNA record", "cli:search stream", "cli:search query file", "cli:search several queries", "cli:search query longer than a record", "cli:search cache-on", "cli:search cache-on after another query file", "cli:search record of self-complementary letters", "cli:search query starting with @")
+	}, "cli:search", "cli:search -e", "cli:search --no-complement", "cli:search RNA record", "cli:search stream", "cli:search query file", "cli:search several queries", "cli:search query longer than a record", "cli:search cache-on", "cli:search cache-on after another query file", "cli:search record of self-complementary letters", "cli:search record equal to its reverse complement", "cli:search query starting with @")
 }
 
 const (
